@@ -189,7 +189,7 @@ func init() {
 	Props["C16"] = &PropDef{
 		ID: "C16",
 		Profile: &Profile{Name: "reset", W: with(obsW, "reset", 4, "obsNew", 6, "obsReg", 6, "filterNew", 5, "filterReg", 6, "res", 4, "query", 5, "setRel", 6, "removeEntity", 8, "qOpen", 2, "qNext", 2, "qClose", 2),
-			MaxEnts: 25, MinOps: 20, MaxOps: 120, RelBias: 50, OpenQ: true, MaxOpenQ: 3, Caps: []int{1, 2, 3, 4, 8}},
+			MaxEnts: 25, MinOps: 20, MaxOps: 120, RelBias: 50, OpenQ: true, MaxOpenQ: 3, Caps: []int{1, 2, 3, 4, 8}, ObsPrefix: 3, ForceReset: true},
 		Policies: []Policy{{}, {FreshOnReset: true}},
 		Opt:      Options{DeepEvery: 5, Events: true},
 		Rule: genNote + "rich pre-history (observers of every event type, registered filters, resources, relation tables, recycled entities, opened-and-closed queries), Reset, post-history; right after Reset Stats must show no entities/filters/observers/lock and no resource may be present; " +
